@@ -6,7 +6,7 @@ use crate::case::Case;
 use crate::common::*;
 use crate::gen;
 use crate::json::J;
-use crate::pma::{kind_name, Entry, Method, Pma, Variant, M};
+use crate::pma::{kind_name, Entry, Method, Variant, M};
 use crate::rng::Rng;
 use daachorse::MatchKind;
 use std::sync::atomic::{AtomicU64, Ordering};
@@ -18,8 +18,8 @@ pub fn num_cases(ctx: &Ctx) -> u64 {
         (Mode::Tsan, Tier::Quick) => 300,
         (Mode::Tsan, Tier::Thorough) => 3000,
         (Mode::Asan, _) => 600,
-        (Mode::Native, Tier::Quick) => 4000,
-        (Mode::Native, Tier::Thorough) => 60_000,
+        (Mode::Native, Tier::Quick) => 16_000,
+        (Mode::Native, Tier::Thorough) => 150_000,
     }
 }
 
